@@ -12,7 +12,7 @@ import (
 
 // ---------------------------------------------------------------- a synthetic tree view with real SkipDir semantics
 
-type treeEnt struct {
+type vh_treeEnt struct {
 	path  string
 	isDir bool
 	data  []byte
@@ -20,19 +20,19 @@ type treeEnt struct {
 	mode  uint32 // file-type and permission bits; 0: regular 0644 / directory 0755
 }
 
-type treeFS struct{ ents []*treeEnt } // entries in protocol order
+type vh_treeFS struct{ ents []*vh_treeEnt } // entries in protocol order
 
-func (f *treeFS) Walk(ctx context.Context, target string, fn gofs.WalkDirFunc) error {
+func (f *vh_treeFS) Walk(ctx context.Context, target string, fn gofs.WalkDirFunc) error {
 	skipUnder, skipParent := "", ""
 	skipParentSet := false
 	for _, e := range f.ents {
-		if skipUnder != "" && isUnder(e.path, skipUnder) {
+		if skipUnder != "" && vh_isUnder(e.path, skipUnder) {
 			continue
 		}
-		if skipParentSet && specParent(e.path) == skipParent {
+		if skipParentSet && vh_specParent(e.path) == skipParent {
 			continue
 		}
-		if skipParentSet && skipParent != "" && isUnder(e.path, skipParent) {
+		if skipParentSet && skipParent != "" && vh_isUnder(e.path, skipParent) {
 			continue
 		}
 		mode := uint32(0644)
@@ -48,7 +48,7 @@ func (f *treeFS) Walk(ctx context.Context, target string, fn gofs.WalkDirFunc) e
 			if e.isDir {
 				skipUnder = e.path
 			} else {
-				skipParent, skipParentSet = specParent(e.path), true
+				skipParent, skipParentSet = vh_specParent(e.path), true
 				if skipParent == "" {
 					return nil
 				}
@@ -62,10 +62,10 @@ func (f *treeFS) Walk(ctx context.Context, target string, fn gofs.WalkDirFunc) e
 	return nil
 }
 
-func (f *treeFS) Open(p string) (io.ReadCloser, error) {
+func (f *vh_treeFS) Open(p string) (io.ReadCloser, error) {
 	for _, e := range f.ents {
 		if e.path == p && !e.isDir {
-			return &fragFile{data: e.data}, nil
+			return &vh_fragFile{data: e.data}, nil
 		}
 	}
 	return nil, os.ErrNotExist
@@ -73,20 +73,20 @@ func (f *treeFS) Open(p string) (io.ReadCloser, error) {
 
 // ---------------------------------------------------------------- reference pattern semantics (literal, "x/**", "**/y", "!")
 
-type refPattern struct {
+type vh_refPattern struct {
 	excl bool
 	text string
 }
 
-func parseRef(p string) refPattern {
+func vh_parseRef(p string) vh_refPattern {
 	if len(p) > 0 && p[0] == '!' {
-		return refPattern{true, p[1:]}
+		return vh_refPattern{true, p[1:]}
 	}
-	return refPattern{false, p}
+	return vh_refPattern{false, p}
 }
 
 // refMatchOne: does the pattern match exactly this path (no ancestor rule)?
-func refMatchOne(p refPattern, path string) bool {
+func vh_refMatchOne(p vh_refPattern, path string) bool {
 	t := p.text
 	if len(t) >= 3 && t[len(t)-3:] == "/**" { // everything below the prefix
 		pre := t[:len(t)-2]
@@ -104,12 +104,12 @@ func refMatchOne(p refPattern, path string) bool {
 
 // refMatchNaive: the statement's evaluation: a match of the path or of any ancestor counts, later
 // patterns override earlier ones, '!' negates.
-func refMatchNaive(pats []refPattern, path string) bool {
+func vh_refMatchNaive(pats []vh_refPattern, path string) bool {
 	matched := false
 	for _, p := range pats {
-		m := refMatchOne(p, path)
-		for q := specParent(path); !m && q != ""; q = specParent(q) {
-			m = refMatchOne(p, q)
+		m := vh_refMatchOne(p, path)
+		for q := vh_specParent(path); !m && q != ""; q = vh_specParent(q) {
+			m = vh_refMatchOne(p, q)
 		}
 		if m {
 			matched = !p.excl
@@ -122,7 +122,7 @@ func refMatchNaive(pats []refPattern, path string) bool {
 // threaded down, the way the pinned patternmatcher documents MatchesUsingParentResults: a pattern
 // is only evaluated on an entry when its outcome could change the running verdict, and what was not
 // evaluated on a directory is not known to its children.
-func refMatchIncr(pats []refPattern, path string, parent []bool) (bool, []bool) {
+func vh_refMatchIncr(pats []vh_refPattern, path string, parent []bool) (bool, []bool) {
 	res := make([]bool, len(pats))
 	matched := false
 	for i, p := range pats {
@@ -134,10 +134,10 @@ func refMatchIncr(pats []refPattern, path string, parent []bool) (bool, []bool) 
 			if p.excl != matched {
 				continue
 			}
-			m = refMatchOne(p, path)
+			m = vh_refMatchOne(p, path)
 			if !m && parent == nil {
-				for q := specParent(path); !m && q != ""; q = specParent(q) {
-					m = refMatchOne(p, q)
+				for q := vh_specParent(path); !m && q != ""; q = vh_specParent(q) {
+					m = vh_refMatchOne(p, q)
 				}
 			}
 		}
@@ -149,18 +149,18 @@ func refMatchIncr(pats []refPattern, path string, parent []bool) (bool, []bool) 
 	return matched, res
 }
 
-var c10Templates = []string{"a", "b", "a/b", "a/a", "a/b/a", "!a", "!a/b", "!a/a", "a/**", "**/b", "!a/**", "!**/b", "a/b/**", "!a/b/a"}
+var vh_c10Templates = []string{"a", "b", "a/b", "a/a", "a/b/a", "!a", "!a/b", "!a/a", "a/**", "**/b", "!a/**", "!**/b", "a/b/**", "!a/b/a"}
 
-func choosePatterns(tag string, max int) []string {
+func vh_choosePatterns(tag string, max int) []string {
 	n := v.Choose(tag+"-n", max+1)
 	out := make([]string, n)
 	for i := range out {
-		out[i] = c10Templates[v.Choose(tag, len(c10Templates))]
+		out[i] = vh_c10Templates[v.Choose(tag, len(vh_c10Templates))]
 	}
 	return out
 }
 
-func oneByteName(tag string) string {
+func vh_oneByteName(tag string) string {
 	s := v.String(tag, 1)
 	v.Assume(s[0] != '/' && s[0] != 0 && s[0] != '.') // a valid path component ("." is not one)
 	return s
@@ -168,10 +168,10 @@ func oneByteName(tag string) string {
 
 // symTree: X/ {X/P, X/Q/ {X/Q/R}}, Y with one-byte symbolic names (siblings ascending): names equal
 // to, or different from, the pattern literals arise from the solver.
-func symTree10() *treeFS {
-	x, y, p, q, r := oneByteName("X"), oneByteName("Y"), oneByteName("P"), oneByteName("Q"), oneByteName("R")
+func vh_symTree10() *vh_treeFS {
+	x, y, p, q, r := vh_oneByteName("X"), vh_oneByteName("Y"), vh_oneByteName("P"), vh_oneByteName("Q"), vh_oneByteName("R")
 	v.Assume(x < y && p < q)
-	return &treeFS{ents: []*treeEnt{
+	return &vh_treeFS{ents: []*vh_treeEnt{
 		{path: x, isDir: true},
 		{path: x + "/" + p, data: []byte("p")},
 		{path: x + "/" + q, isDir: true},
@@ -181,30 +181,30 @@ func symTree10() *treeFS {
 }
 
 // refSelect: which entries a filter configuration selects (kept entries plus their ancestors).
-func refSelect(t *treeFS, inc, exc []refPattern, incr bool) []bool {
+func vh_refSelect(t *vh_treeFS, inc, exc []vh_refPattern, incr bool) []bool {
 	n := len(t.ents)
 	keep := make([]bool, n)
 	incInfo, excInfo := map[string][]bool{}, map[string][]bool{}
 	for i, e := range t.ents {
 		included, excluded := true, false
 		if incr {
-			par := specParent(e.path)
+			par := vh_specParent(e.path)
 			var pi, pe []bool
 			if par != "" {
 				pi, pe = incInfo[par], excInfo[par]
 			}
 			if len(inc) > 0 {
-				included, incInfo[e.path] = refMatchIncr(inc, e.path, pi)
+				included, incInfo[e.path] = vh_refMatchIncr(inc, e.path, pi)
 			}
 			if len(exc) > 0 {
-				excluded, excInfo[e.path] = refMatchIncr(exc, e.path, pe)
+				excluded, excInfo[e.path] = vh_refMatchIncr(exc, e.path, pe)
 			}
 		} else {
 			if len(inc) > 0 {
-				included = refMatchNaive(inc, e.path)
+				included = vh_refMatchNaive(inc, e.path)
 			}
 			if len(exc) > 0 {
-				excluded = refMatchNaive(exc, e.path)
+				excluded = vh_refMatchNaive(exc, e.path)
 			}
 		}
 		keep[i] = included && !excluded
@@ -213,7 +213,7 @@ func refSelect(t *treeFS, inc, exc []refPattern, incr bool) []bool {
 	for i, e := range t.ents {
 		sel[i] = keep[i]
 		for j, o := range t.ents {
-			if keep[j] && isUnder(o.path, e.path) {
+			if keep[j] && vh_isUnder(o.path, e.path) {
 				sel[i] = true
 			}
 		}
@@ -224,14 +224,14 @@ func refSelect(t *treeFS, inc, exc []refPattern, incr bool) []bool {
 // VH_C10_filter: a filtered walk reports exactly the entries the unpruned reference evaluation
 // selects, in walk order, each once, directories before their contents.
 func VH_C10_filter() {
-	t := symTree10()
-	incS, excS := choosePatterns("inc", v.Param("NI", 1)), choosePatterns("exc", v.Param("NE", 1))
-	var inc, exc []refPattern
+	t := vh_symTree10()
+	incS, excS := vh_choosePatterns("inc", v.Param("NI", 1)), vh_choosePatterns("exc", v.Param("NE", 1))
+	var inc, exc []vh_refPattern
 	for _, p := range incS {
-		inc = append(inc, parseRef(p))
+		inc = append(inc, vh_parseRef(p))
 	}
 	for _, p := range excS {
-		exc = append(exc, parseRef(p))
+		exc = append(exc, vh_parseRef(p))
 	}
 	ffs, err := NewFilterFS(t, &FilterOpt{IncludePatterns: incS, ExcludePatterns: excS})
 	v.Assert(err == nil, "NewFilterFS accepts the pattern lists")
@@ -253,7 +253,7 @@ func VH_C10_filter() {
 				got[i] = true
 			}
 		}
-		if last != "" && specCmp(last, p) >= 0 {
+		if last != "" && vh_specCmp(last, p) >= 0 {
 			order = false
 		}
 		last = p
@@ -262,7 +262,7 @@ func VH_C10_filter() {
 	v.Assert(err == nil, "filtered walk succeeds")
 	v.Assert(!dup, "no entry is reported twice")
 	v.Assert(order, "entries are reported in walk order, directories before their contents")
-	naive, incr := refSelect(t, inc, exc, false), refSelect(t, inc, exc, true)
+	naive, incr := vh_refSelect(t, inc, exc, false), vh_refSelect(t, inc, exc, true)
 	eqNaive, eqIncr, refsDiffer := true, true, false
 	for i := range got {
 		eqNaive = v.And(eqNaive, got[i] == naive[i])
